@@ -49,6 +49,15 @@ Theorem reach_ckif_is_generated s fuel t :
   reach_ok s -> ckif_spins fuel s (k_cur (tasks s t)) = gen_ckif_spins (chain_of fuel s (k_cur (tasks s t))).
 Proof. intros R. apply machine_ckif_spins_gen, reach_walks_see_entered_scopes, R. Qed.
 
+(* F46: every re-check of a spinning checkpoint_if_cancelled is the generated walk over the task's CURRENT chain *)
+Theorem reach_ckif_respin_is_generated s t fo :
+  reach_ok s -> k_ctl (tasks s t) = CYield YCkIf -> snd (incoming s t fo) = None ->
+  snd (resume s t fo) =
+    if gen_ckif_restarts_from_task_scope
+    then (if gen_ckif_spins (chain_of (nscope s) s (k_cur (tasks s t))) then RBlocked else RRet 0)
+    else RBlocked.
+Proof. intros R Hc Hi. apply machine_ckif_respin_gen; [exact Hc|exact Hi|apply reach_walks_see_entered_scopes, R]. Qed.
+
 Theorem reach_eff_deadline_is_generated s fuel t :
   reach_ok s ->
   eff_deadline_from fuel s (k_cur (tasks s t)) XInf = gen_eff_deadline (chain_of fuel s (k_cur (tasks s t))).
